@@ -99,6 +99,8 @@ def href_set(interp, env, h, val, extra=()):
         cur[h.idx] = items[h.idx]
     heap[h.vid] = tuple(cur)
     interp.mstate["heap"] = heap
+    if h.vid == "__stack" and "stack" in interp.mstate:
+        interp.mstate["stack"] = heap[h.vid]      # the population stack's mirror (c04.StackModel): a slot written through `last_mut()` / `current_mut()`
     return True
 
 
@@ -241,6 +243,12 @@ class Interp:
             return v
         if isinstance(v, Agg):
             return v.with_fields([self.freeze(env, x, depth + 1) for x in v.fields])
+        if type(v).__name__ == "It" and type(getattr(v, "items", None)).__name__ == "LazyItems":
+            # a lazy adapter chain handed to a callee (`f(xs.iter().map(|x| x + captured))`): its closures' captures are
+            # references into THIS frame and must stay valid while the callee takes the items
+            lz = v.items
+            v2 = type(v)(type(lz)([self.freeze(env, x, depth + 1) for x in lz.base], [self.freeze(env, fv, depth + 1) for fv in lz.fns], lz.owner), v.adapters, v.extra)
+            return v2
         return v
 
     def resolve_own(self, env, v, depth=0):
@@ -601,6 +609,8 @@ class Interp:
                 items[idx] = self._store(env, items[idx], proj[1:], val)
                 h[base.vid] = tuple(items)
                 self.mstate["heap"] = h
+                if base.vid == "__stack" and "stack" in self.mstate:
+                    self.mstate["stack"] = h[base.vid]
             return base
         if isinstance(e, list) and e[0] == "f" and len(e) > 3 and e[3] in BOXLIKE and not (isinstance(base, Agg) and base.name == e[3]):
             return self._store(env, base, proj[1:], val)
@@ -1054,7 +1064,7 @@ class Interp:
                                     self.write_ref(env, av_, TOP)
                             elif isinstance(av_, HRef):
                                 tgt_ = href_get(self, env, av_)
-                                if not isinstance(tgt_, Sym):
+                                if not (isinstance(tgt_, Sym) or hasattr(tgt_, "vid")):
                                     href_set(self, env, av_, TOP)
                     path.events.append(Event("call", bb, (ckey, (f.get("cgargs") or f.get("gargs")), args, res, t)))
                     if res == "DIVERGE":
